@@ -133,8 +133,8 @@ Produce(e) ==
 HashOK(e) ==
   LET f == D(e, 1) IN
   IF e.p = "32749"
-  THEN /\ Normalised("ff", 32749, e.w, 0, nvars)
-       /\ <<e.val>> = Comps(WMC("ff", 32749, f, e.w, 0, nvars), 0)
+  THEN /\ Normalised("ff", 32749, e.w, WX(0, nvars), nvars)
+       /\ <<e.val>> = Comps(WMC("ff", 32749, f, e.w, WX(0, nvars), nvars), 0)
   ELSE LET P == PrimeLimbs(e.p)
            s == LAdd(e.limbs, e.nlimbs)
        IN /\ IsLimbs(e.limbs) /\ IsLimbs(e.nlimbs)
@@ -155,10 +155,11 @@ QSet(e) == {e.q[i] : i \in 1 .. Len(e.q)}
 RestrictTo(f, Q, T) == {a \in f : \A v \in Q : Bit(a, v) = (v \in T)}
 RECURSIVE CondAll(_, _, _, _)
 CondAll(f, q, T, i) == IF i > Len(q) THEN f ELSE CondAll(Cond(f, q[i], q[i] \in T), q, T, i + 1)
+WExps(e) == IF "wexps" \in DOMAIN e THEN e.wexps ELSE WX(e.wexp, nvars)
 Score(e, T) ==
   IF e.sr = "real"
-  THEN Comps(WMC("real", 0, RestrictTo(D(e, 1), QSet(e), T), e.w, e.wexp, nvars), nvars * e.wexp)[1]
-  ELSE Comps(UWmc("eu", 0, CondAll(D(e, 1), e.q, T, 1), ord, e.w, e.wexp), nvars * e.wexp)[2]
+  THEN Comps(WMC("real", 0, RestrictTo(D(e, 1), QSet(e), T), e.w, WExps(e), nvars), SumExp(WExps(e), nvars))[1]
+  ELSE Comps(UWmc("eu", 0, CondAll(D(e, 1), e.q, T, 1), ord, e.w, WExps(e)), SumExp(WExps(e), nvars))[2]
 OptOK(e) ==
   LET Q == QSet(e)
       scores == [T \in SUBSET Q |-> Score(e, T)]
@@ -179,12 +180,12 @@ QueryOK(e) ==
     [] e.ev = "eval" -> Req("C07", e.val = (e.a[2] \in f))
     [] e.ev = "count" -> Req("C10", e.val = Cardinality(Reach(node, r)))          \* structure only
     [] e.ev = "wmc" -> Req("C07",                                                 \* normalised weights
-         /\ Normalised(e.sr, e.p, e.w, e.wexp, nvars)
-         /\ e.val = Comps(WMC(e.sr, e.p, f, e.w, e.wexp, nvars), nvars * e.wexp)
+         /\ Normalised(e.sr, e.p, e.w, WX(e.wexp, nvars), nvars)
+         /\ e.val = Comps(WMC(e.sr, e.p, f, e.w, WX(e.wexp, nvars), nvars), nvars * e.wexp)
          /\ ("den" \in DOMAIN e) => e.den = 1
          /\ ("tail0" \in DOMAIN e) => e.tail0)
     [] e.ev = "uwmc" -> Req("C07",                                                \* arbitrary weights
-         /\ e.val = Comps(UWmc(e.sr, e.p, f, ord, e.w, e.wexp), nvars * e.wexp)
+         /\ e.val = Comps(UWmc(e.sr, e.p, f, ord, e.w, WX(e.wexp, nvars)), nvars * e.wexp)
          /\ ("den" \in DOMAIN e) => e.den = 1
          /\ ("tail0" \in DOMAIN e) => e.tail0)
     [] e.ev = "semhash" -> Req("C11", HashOK(e))
